@@ -57,6 +57,10 @@ def build(d: Path) -> Path:
     (root / ".reuse").mkdir()
     (root / "src" / "a.py").write_text(HDR + "a = 1\n")
     (root / "src" / "b.c").write_text("int b;\n")
+    # a covered file whose .license sibling is a symbolic link leaving the project
+    (root / "src" / "c.py").write_text("c = 1\n")
+    (sent / "sibling_target.txt").write_text("SPDX-FileCopyrightText: 2001 Outside Owner\n")
+    os.symlink("../../sentinel/sibling_target.txt", root / "src" / "c.py.license")
     (root / "bin.dat").write_bytes(b"\x00\x01\x02BIN\xff\xfe" * 4)
     os.symlink("../sentinel/target.py", root / "link.py")
     os.symlink("../sentinel/dir", root / "linkdir")
